@@ -57,4 +57,20 @@ Safe(muts, k, rec) ==
   /\ ClockFile(muts, k, "ok") = "ok"
   /\ (\E e \in DOMAIN rec.outcome : rec.outcome[e] = "pre") => rec.redo = "post"   \* repeating the call completes it
   /\ rec.redo2 \in {"", "ok"}          \* ... also when the repeated call is interrupted in turn (old or new, then complete)
+
+(* ---- calls that fail instead of dying (C02): one repository call of any kind (reads and clock operations too) returns an error
+   and does nothing; the call under test reports it or carries on.  `muts` are the mutations of the complete call, `done` the
+   ones the failing call made all the same.  An entity whose ref it moved is in the state the complete call gives it (a ref is
+   only ever moved to the final state), every other entity is as before; unreferenced objects may stay behind. *)
+ExpectedAfter(muts, done, e) ==
+  IF RefsTotal(done, e) > 0 THEN "post"
+  ELSE IF RefsTotal(muts, e) > 0 THEN "pre" ELSE "unchanged"
+
+ErrSafe(muts, done, rec) ==
+  /\ rec.openerr = "" /\ rec.readerr = ""
+  /\ Ents(done) \subseteq DOMAIN rec.outcome
+  /\ SingleRef(done) /\ AtomicClock(done)
+  /\ \A e \in DOMAIN rec.outcome : rec.outcome[e] = ExpectedAfter(muts, done, e)
+  /\ rec.clockok
+  /\ (\E e \in DOMAIN rec.outcome : rec.outcome[e] = "pre") => rec.redo = "post"
 =============================================================================
